@@ -824,6 +824,25 @@ VARIANTS += [
     V("c02-m9", "C02", "linear", "_Linear._uptake_new_arm",
       "if is_fitted:\n    self.arm_to_model[arm].init(num_features=self.num_features)", "", "R2.3",
       why="model of an arm added after fit is never initialised"),
+    V("c02-m10", "C02", "linear", "_RidgeRegression.init",
+      "self.scaler = StandardScaler() if self.scale else None",
+      "self.scaler = StandardScaler(copy=False) if self.scale else None", "R2.5",
+      also=[("linear", "_RidgeRegression._scale_predict_context",
+             "return self.scaler.transform(x.astype('float64'))",
+             "return self.scaler.transform(np.asarray(x, dtype='float64'))")],
+      why="scaler without copy on an alias of the query matrix: later arms score contexts scaled twice (seeded "
+          "change C02-inplace-scaler)"),
+    V("c02-m11", "C02", "linear", "_LinUCB.predict", "x_A_inv = np.dot(x, self.A_inv)",
+      "x *= 2.0\nx_A_inv = np.dot(x, self.A_inv)", "R2.5",
+      why="query matrix rescaled in place: each later arm scores a matrix doubled once more"),
+    V("c02-b3", "C02", "linear", "_RidgeRegression.init",
+      "self.scaler = StandardScaler() if self.scale else None",
+      "self.scaler = StandardScaler(copy=False) if self.scale else None", benign=True,
+      why="copy=False alone is harmless: transform is given x.astype(...), a fresh array"),
+    V("c02-b4", "C02", "linear", "_RidgeRegression._scale_predict_context",
+      "return self.scaler.transform(x.astype('float64'))",
+      "return self.scaler.transform(np.asarray(x, dtype='float64'))", benign=True,
+      why="an aliasing operand alone is harmless: the default scaler copies"),
     V("c02-b1", "C02", "linear", "_LinUCB.predict", "x_A_inv = np.dot(x, self.A_inv)",
       "inverse = self.A_inv\nx_A_inv = np.dot(x, inverse)", benign=True),
     V("c02-b2", "C02", "linear", "_RidgeRegression.fit", "Xt = X.T", "Xt = X.T\npass", benign=True),
